@@ -142,6 +142,28 @@ def fp_str_stream(ctx, rng, kinds, dist):
         ctx.violation("C04/%s/%s" % (op, exc), "folding %s raised %s" % (desc[:300], exc), rep)
 
 
+def wide_int_to_str(ctx, rng, kinds, dist):
+    """IntToStr of integers with thousands of decimal digits (CPython refuses str() of an int beyond 4300 digits unless told otherwise)"""
+    import claripy
+    for w in [64, 100, 4000, 14280, 14290, 20000, 40000]:
+        for v in [0, 1, (1 << w) - 1, 1 << (w - 1), rng.getrandbits(w)]:
+            ctx.count()
+            dist["S.IntToStr.wide"] += 1
+            try:
+                r = claripy.IntToStr(claripy.BVV(v, w))
+                kinds["ok"] += 1
+                nd = len(r.args[0]) if r.op == "StringV" else None
+                lo = (max(v.bit_length() - 1, 0) * 30102) // 100000
+                if nd is not None and not (lo <= nd <= lo + 2):
+                    ctx.violation("C04/IntToStr/wrong-length", "IntToStr of a %d-bit integer gave %d digits, expected about %d" % (w, nd, lo + 1), {"kind": "int2str", "bits": w})
+            except claripy.errors.ClaripyError:
+                kinds["ClaripyError"] += 1
+            except Exception as ex:  # noqa
+                ctx.violation("C04/IntToStr/%s" % type(ex).__name__, "folding IntToStr(BVV(<%d-bit value>, %d)) raised %s: %s" % (v.bit_length(), w, type(ex).__name__, str(ex)[:80]),
+                              {"kind": "int2str", "bits": w, "value_bits": v.bit_length()})
+                break
+
+
 def well_typed_reverse_nonbyte(tree):
     if tree[0] == "reverse":
         w = E.width(tree[1])
@@ -224,6 +246,7 @@ def run(ctx):
                           "building %s raised %s: %s" % (repr(small)[:300], k, str(e2 or e)[:200]),
                           {"tree": small, "exception": k, "message": str(e2 or e)[:300], "template": name})
         fp_str_stream(ctx, rng, kinds, dist)
+        wide_int_to_str(ctx, rng, kinds, dist)
     finally:
         resource.setrlimit(resource.RLIMIT_AS, (soft, hard))
     if fold_lines:
